@@ -45,6 +45,14 @@ def owner_of(b, key):
     return None
 
 
+TABLES = [("t1", None), ("app.t1", "app"), ("t1", None)]
+
+
+def table_of(b):
+    """the table's own name is another axis a clause must be independent of: unqualified / schema-qualified, chosen per behaviour"""
+    return TABLES[(len(b["clauses"]) + sum(len(c) for c in b["clauses"]) + len(b["body"])) % len(TABLES)]
+
+
 def check_one(b, o, baseline_keys):
     """-> (paths, observed summary)"""
     if o[0] != "ok":
@@ -58,7 +66,7 @@ def check_one(b, o, baseline_keys):
     exp = K.BODIES[b["body"]]
     if [tuple(x) for x in cols] != [tuple(x) for x in exp[1]] or pk != exp[2]:
         paths.append("body")
-    if t.get("table_name") != "t1" or t.get("schema", t.get("dataset")) is not None:
+    if t.get("table_name") != "t1" or t.get("schema", t.get("dataset")) != table_of(b)[1]:
         paths.append("body.name")
     slot = "own" if b["mode"] != "sql" else "sql"
     props = t.get("table_properties") or {}
@@ -111,7 +119,7 @@ def run(tier, seed):
     for what, cs in gens:
         g = mc(cs, "generation " + what)
         behs = [b for b in g.beh if b["clauses"]]
-        tasks = [(K.render(b), {}, {"output_mode": b["mode"]}) for b in behs]
+        tasks = [(K.render(b, table_of(b)[0]), {}, {"output_mode": b["mode"]}) for b in behs]
         outs, nu = C.parse_many(tasks)
         nbad = 0
         for b, tk, o in zip(behs, tasks, outs):
